@@ -1154,7 +1154,7 @@ func (x *Exec) pureApp(fr *Frame, st *State, key string, con *Contract, sig *typ
 			x.note("pure function without body treated as heap-independent: " + key)
 		}
 	}
-	base := "F." + sanitize(key)
+	base := "F." + sanitize(key) + sigTag(sorts)
 	mk := func(sfx string, t types.Type) Val {
 		cs := comps(t)
 		out := make([]string, len(cs))
@@ -1878,7 +1878,7 @@ func (e *SpecEnv) recApply(sf *SpecFunc, args []Val) Val {
 	if len(cs) != 1 {
 		sfail("spec function %s: compound result types are not supported", sf.Name)
 	}
-	fnm := "S." + sanitize(sf.Pkg) + "." + sf.Name
+	fnm := "S." + sanitize(sf.Pkg) + "." + sf.Name + sigTag(sorts)
 	x.decls.Fun(fnm, sorts, cs[0].Sort)
 	t := x.decls.Define("rec."+sf.Name, cs[0].Sort, "("+fnm+" "+strings.Join(terms, " ")+")")
 	res := Val{K: cs[0].K, T: rt, S: t}
@@ -1895,4 +1895,17 @@ func (e *SpecEnv) recApply(sf *SpecFunc, args []Val) Val {
 		}
 	}
 	return res
+}
+
+// sigTag distinguishes uninterpreted functions of the same name that are applied with different argument sorts (the heap
+// arrays a function depends on may or may not be expressible as terms)
+func sigTag(sorts []string) string {
+	h := uint32(2166136261)
+	for _, s := range sorts {
+		for i := 0; i < len(s); i++ {
+			h = (h ^ uint32(s[i])) * 16777619
+		}
+		h = (h ^ '|') * 16777619
+	}
+	return fmt.Sprintf(".s%x", h&0xffff)
 }
